@@ -27,22 +27,22 @@ pub fn tabs_everywhere(_args: &[String]) -> String {
                         pb = pb.with_tab_width(w);
                         tw = w;
                     }
-                    pb.set_style(ProgressStyle::with_template("[\t]{prefix}|{msg}|").unwrap());
+                    pb.set_style(ProgressStyle::with_template("[\t]{prefix}|\t{msg}|").unwrap());
                     let (mut msg, mut pfx, mut lit) = (String::new(), String::new(), "[\t]".to_string());
-                    let mut hist = vec![format!("with_tab_width({:?}); set_style(template \"[\\t]{{prefix}}|{{msg}}|\")", w0)];
+                    let mut hist = vec![format!("with_tab_width({:?}); set_style(template \"[\\t]{{prefix}}|\\t{{msg}}|\")", w0)];
                     for op in [a, b, c] {
                         match op {
                             0 => { pb.set_message("m\tm"); msg = "m\tm".into(); hist.push("set_message(m\\tm)".into()); }
                             1 => { pb.set_prefix("p\t"); pfx = "p\t".into(); hist.push("set_prefix(p\\t)".into()); }
                             2 => { pb.set_tab_width(2); tw = 2; hist.push("set_tab_width(2)".into()); }
                             3 => { pb.set_tab_width(5); tw = 5; hist.push("set_tab_width(5)".into()); }
-                            4 => { pb.set_style(ProgressStyle::with_template("<\t>{prefix}|{msg}|").unwrap()); lit = "<\t>".into(); hist.push("set_style(fresh style, template <\\t>..)".into()); }
-                            5 => { let st = pb.style().template("(\t){prefix}|{msg}|").unwrap(); pb.set_style(st); lit = "(\t)".into(); hist.push("set_style(pb.style().template((\\t)..))".into()); }
+                            4 => { pb.set_style(ProgressStyle::with_template("<\t>{prefix}|\t{msg}|").unwrap()); lit = "<\t>".into(); hist.push("set_style(fresh style, template <\\t>..)".into()); }
+                            5 => { let st = pb.style().template("(\t){prefix}|\t{msg}|").unwrap(); pb.set_style(st); lit = "(\t)".into(); hist.push("set_style(pb.style().template((\\t)..))".into()); }
                             _ => { pb.finish_with_message("f\tf"); msg = "f\tf".into(); hist.push("finish_with_message(f\\tf)".into()); }
                         }
                         pb.tick();
                         tried += 1;
-                        let want = format!("{}{}|{}|", lit, pfx, msg).replace('\t', &sp(tw));
+                        let want = format!("{}{}|\t{}|", lit, pfx, msg).replace('\t', &sp(tw));
                         let got = term.contents();
                         if got.contains('\t') || got.trim_end() != want.trim_end() {
                             return fail("C16 every tab is expanded to the bar's current tab width", &hist, &want, &got);
